@@ -554,6 +554,35 @@ class Program:
         count = [0]
         out = []
 
+        def immutable(t):
+            # terms whose value cannot change along a path: parameters and constants only
+            if not isinstance(t, tuple):
+                return True
+            k = t[0]
+            if k in ("param", "const", "null"):
+                return True
+            if k == "cmp":
+                return immutable(t[2]) and immutable(t[3])
+            if k == "truth":
+                return immutable(t[1])
+            return False
+
+        def contradicts(path, atom, pol):
+            if atom is None or not immutable(atom):
+                return False
+            for (_, a, p) in path:
+                if a is None:
+                    continue
+                if a == atom and p != pol:
+                    return True
+                if a[0] == "cmp" and atom[0] == "cmp" and a[2] == atom[2] and a[3][0] == "const" and atom[3][0] == "const" \
+                        and a[3] != atom[3] and immutable(a):
+                    e1 = (a[1] == "eq" and p) or (a[1] == "ne" and not p)
+                    e2 = (atom[1] == "eq" and pol) or (atom[1] == "ne" and not pol)
+                    if e1 and e2:
+                        return True
+            return False
+
         def rec(b, pred, path, env, becount):
             # update phi env for this block
             env2 = env
@@ -588,6 +617,8 @@ class Program:
                         continue
                     bc = dict(becount)
                     bc[e] = n + 1
+                if contradicts(path, atom, pol):
+                    continue
                 path.append((s, atom, pol))
                 rec(s, b, path, env2, bc)
                 path.pop()
